@@ -49,7 +49,8 @@ Print Assumptions src_order.
 (* both timestamps are parsed at millisecond precision, "min" for 2.1 and "exact" otherwise; the clock is
    get_timestamp and _fudge_modified gets the 2.1 rules unless the version is 2.0 *)
 Theorem src_timestamps :
-  s_parse_precision src_cfg = s_parse_precision model_cfg /\ s_old_sources src_cfg = s_old_sources model_cfg /\
+  s_parse_precision src_cfg = s_parse_precision model_cfg /\ s_parse_constraint src_cfg = s_parse_constraint model_cfg /\
+  s_old_sources src_cfg = s_old_sources model_cfg /\
   (s_constraint_21 src_cfg, s_constraint_test src_cfg, s_constraint_else src_cfg)
   = (s_constraint_21 model_cfg, s_constraint_test model_cfg, s_constraint_else model_cfg) /\
   s_fudge_flag src_cfg = s_fudge_flag model_cfg /\ s_clock src_cfg = s_clock model_cfg.
